@@ -540,6 +540,11 @@ func (tdsChan *Channel) SendRemainingPackets(ctx context.Context) error {
 // must be sent.
 func (tdsChan *Channel) SendPackage(ctx context.Context, pkg Package) error {
 	if err := tdsChan.QueuePackage(ctx, pkg); err != nil {
+		// The message is abandoned - SendRemainingPackets, which would
+		// have reset the channel, is never reached. Do not leave the
+		// remains of this message in the queue to be sent as the start
+		// of the next one.
+		tdsChan.Reset()
 		return err
 	}
 
